@@ -8,7 +8,7 @@ FUNCTIONS = [
     'compiler/dialect_libraries/sqlite_library.py: `=` library predicate',
 ]
 ASSUMPTIONS = [
-    'each pair = a catalogue program (families core, agg, sugarbase) and the same program with one documented shorthand rewritten into its long form (or back) at every applicable site by an AST rewrite in lv/gen_meta.py: positional<->colN, `a:`<->`a: a`, F(x)=v<->logica_value, functional call in expression<->extra conjunct (also inside negations, combines, implications), =<->==, ~P<->Max{1 :- P} is null, A=>B<->~(A,~B), the three combine syntaxes, x in [a,b]<->alternatives, several rules<->bare top-level `|`, P(k) Op= e<->logica_value? Op= e distinct',
+    'each pair = a catalogue program (families core, agg, sugarbase, exprs: `else if` chains with overlapping conditions / repeated values and nested negations) and the same program with one documented shorthand rewritten into its long form (or back) at every applicable site by an AST rewrite in lv/gen_meta.py: positional<->colN, `a:`<->`a: a`, F(x)=v<->logica_value, functional call in expression<->extra conjunct (also inside negations, combines, implications), =<->==, ~P<->Max{1 :- P} is null, A=>B<->~(A,~B), the three combine syntaxes, x in [a,b]<->alternatives, several rules<->bare top-level `|`, P(k) Op= e<->logica_value? Op= e distinct',
     'z3 proves both SQL texts equal on all databases with <=K rows per table (K=2, 3 for single-atom aggregates)',
     'a pair whose long form is rejected by the compiler while the short form compiles counts as a violation (unless it is the listed known finding)',
     'trusted: lv/sqlsem.py, z3',
@@ -16,7 +16,7 @@ ASSUMPTIONS = [
 
 
 def run():
-  return pairrun.run_pairs('C11', [('lv.gen_meta', 'c11_pairs', 64, 3200), ('lv.gen_meta', 'c11_kf_pairs', 3, 3)], FUNCTIONS, ASSUMPTIONS,
+  return pairrun.run_pairs('C11', [('lv.gen_meta', 'c11_pairs', 64, 3200), ('lv.gen_meta', 'c11_expr_pairs', 8, 64), ('lv.gen_meta', 'c11_kf_pairs', 3, 3)], FUNCTIONS, ASSUMPTIONS,
                            'DESIGN.md §3 C11',
                            rejected_is_violation=lambda r: r.get('rejected_side') == 'b')
 
